@@ -55,6 +55,23 @@ var props = map[string]*prop{
 		},
 		assumptions: baseAssumptions,
 	},
+	"C03": {
+		level: "exploration",
+		jobs: []job{
+			regress,
+			{name: "scan", run: "^TestC03_Scan$", shards: [2]int{4, 16}, checks: [2]int{40, 700}},
+			{name: "mutated", run: "^TestC03_Mutated$", shards: [2]int{4, 16}, checks: [2]int{8000, 400000}},
+		},
+		assumptions: baseAssumptions,
+	},
+	"C15": {
+		level: "exploration",
+		jobs: []job{
+			regress,
+			{name: "errors", run: "^TestC15_Errors$", shards: [2]int{4, 16}, checks: [2]int{5000, 300000}},
+		},
+		assumptions: baseAssumptions,
+	},
 	"C05": {
 		level: "exploration",
 		jobs: []job{
